@@ -3,4 +3,4 @@ From Coq Require Import Extraction ExtrOcamlBasic.
 From Tele Require Import Lib.Bytes Lib.Calendar Lib.SortedMap Model.Bucket Model.Endpoint.
 Extraction Language OCaml.
 Extraction "endpoint_model.ml" expand mk_pconfig handle handle_http handle_wire expected expected_wire valid_request program_ok has_counter has_stack stack_prefix object_name object_content
-  fs_init fput write components join_path g_string two_level mkRequest serve.
+  fs_init fput write components join_path g_string two_level mkRequest q_path serve.
